@@ -132,7 +132,24 @@ func genC19(c *fw.Ctx) {
 	if !c.Quick() {
 		urlSets = tagSets
 	}
-	for _, proto := range []string{"http", "rpc"} {
+	// every HTTP method kind carries Tags: each kind once as the first method (Tags as its first
+	// child) and once as the second (Tags as its last child)
+	kinds := []string{"GET", "POST", "PUT", "PATCH", "DELETE"}
+	for _, protoK := range []string{"http0", "http1", "http2", "http3", "http4", "rpc"} {
+		proto, kindA, kindB := "rpc", "GET", "POST"
+		if strings.HasPrefix(protoK, "http") {
+			proto = "http"
+			k := int(protoK[4] - '0')
+			kindA, kindB = kinds[k], kinds[(k+1)%5]
+		}
+		// two further kinds for the methods written outside the block on the block's own path
+		kindH, kindT := kinds[0], kinds[1]
+		if proto == "http" {
+			k := int(protoK[4] - '0')
+			kindH, kindT = kinds[(k+2)%5], kinds[(k+3)%5]
+		} else {
+			kindH, kindT = "DELETE", "PATCH"
+		}
 		for _, paren := range []bool{false, true} {
 			for ui, urlTags := range urlSets {
 				for m1, t1 := range tagSets {
@@ -190,8 +207,8 @@ func genC19(c *fw.Ctx) {
 											url.Kids = append(url.Kids, n("Tags", urlTags...))
 										}
 										if proto == "http" {
-											a := n("GET").WithKids(n("200", "any"))
-											b := n("POST").WithKids(n("201", "empty"))
+											a := n(kindA).WithKids(n("200", "any"))
+											b := n(kindB).WithKids(n("201", "empty"))
 											if t1 != nil {
 												a.Kids = append([]*doc.Node{n("Tags", t1...)}, a.Kids...)
 											}
@@ -199,7 +216,7 @@ func genC19(c *fw.Ctx) {
 												b.Kids = append(b.Kids, n("Tags", t2...))
 											}
 											url.Kids = append(url.Kids, a, b)
-											exp = append(exp, expI{"http GET /u/{id}", pick(t1, "@u")}, expI{"http POST /u/{id}", pick(t2, "@u")})
+											exp = append(exp, expI{"http " + kindA + " /u/{id}", pick(t1, "@u")}, expI{"http " + kindB + " /u/{id}", pick(t2, "@u")})
 										} else {
 											a := n("Method", "ma")
 											b := n("Method", "mb").WithKids(n("Params").WithBody("{}"))
@@ -233,15 +250,15 @@ func genC19(c *fw.Ctx) {
 											want := expI{"http DELETE /other/x", []string{"@other"}}
 											if hoistKind == 2 {
 												// the same path as the block it leaves: not enclosed by the URL, so the automatic tag
-												h = n("DELETE", "/u/{id}").WithKids(n("204", "empty"))
-												want = expI{"http DELETE /u/{id}", []string{"@u"}}
+												h = n(kindH, "/u/{id}").WithKids(n("204", "empty"))
+												want = expI{"http " + kindH + " /u/{id}", []string{"@u"}}
 											}
 											url.Kids = append(url.Kids, h)
 											exp = append(exp, want)
 										}
 										if proto == "http" && m2%2 == 0 {
 											// a top-level method on the URL's path, written after the block
-											exp = append(exp, expI{"http PATCH /u/{id}", []string{"@u"}})
+											exp = append(exp, expI{"http " + kindT + " /u/{id}", []string{"@u"}})
 										}
 										top := n("PUT", "/top").WithKids(n("200", "any"))
 										if m1%3 == 1 {
@@ -251,7 +268,7 @@ func genC19(c *fw.Ctx) {
 											exp = append(exp, expI{"http PUT /top", []string{"@top"}})
 										}
 										if proto == "http" && m2%2 == 0 {
-											nodes = append(nodes, n("PATCH", "/u/{id}").WithParen().WithKids(n("200", "any")))
+											nodes = append(nodes, n(kindT, "/u/{id}").WithParen().WithKids(n("200", "any")))
 										}
 										nodes = append(nodes, top)
 										if undeclaredAt == 1 {
@@ -262,7 +279,7 @@ func genC19(c *fw.Ctx) {
 											nodes = append(nodes, decl...)
 										}
 										text := doc.Text(nodes)
-										label := fmt.Sprintf("proto=%s paren=%v url=%d m1=%d m2=%d hoist=%d after=%v declU=%v undeclared=%d", proto, paren, ui, m1, m2, hoistKind, declAfter, declU, undeclaredAt)
+										label := fmt.Sprintf("proto=%s kinds=%s,%s paren=%v url=%d m1=%d m2=%d hoist=%d after=%v declU=%v undeclared=%d", proto, kindA, kindB, paren, ui, m1, m2, hoistKind, declAfter, declU, undeclaredAt)
 										if undeclared {
 											label += " name=" + undeclName
 										}
